@@ -148,7 +148,7 @@ user cancelled it): `GetById` succeeds, `MarkAsDispatched` is refused with the r
 is NOT retryable. Nothing runs, nothing is written. -/
 theorem round_retry_refused {w : World} {t u : Task} {e e' : Err} (hpc : w.pc = .idle)
     (hfix : w.fix.retryMarks = true) (hr : w.ret = .dispatchErr t e)
-    (hq : World.isDefError e = false)
+    (hq : World.isDefError e = false) (hg : w.getNextErr = true)
     (hu : w.obs.repo.lookup t.id = some u) (hs : u.state ≠ .scheduled) (hs' : u.state ≠ .dispatched)
     (hk : errKindMutate u = some e') :
     driveRound w = { w with ctxDone := false, pc := .idle, ret := .dispatchErr t e' } := by
@@ -170,7 +170,7 @@ theorem round_retry_refused {w : World} {t u : Task} {e e' : Err} (hpc : w.pc = 
   have e4 : ({ w with ctxDone := false, pc := .d_mark t false } : World).step
         (autoAct { w with ctxDone := false, pc := .d_mark t false })
       = { w with ctxDone := false, pc := .idle, ret := .dispatchErr t e' } := by
-    simp [autoAct, World.step, World.sched, hd, World.finish]
+    simp [autoAct, World.step, World.sched, hd, World.finishDE, World.finish, hg]
   rw [drive_idle (by rw [e4]), e4]
 
 /-- `Retry(DispatchErr t e)`, the task is no longer stored (no user operation of this model removes a
@@ -179,7 +179,7 @@ task; ent's `DeleteEnded` would): `GetById` fails, the pinned code continues wit
 idNotFound`, NOT retryable. Nothing runs, nothing is written. -/
 theorem round_retry_missing {w : World} {t : Task} {e : Err} (hpc : w.pc = .idle)
     (hfix : w.fix.retryMarks = true) (hr : w.ret = .dispatchErr t e)
-    (hq : World.isDefError e = false)
+    (hq : World.isDefError e = false) (hg : w.getNextErr = true)
     (hu : w.obs.repo.lookup t.id = none) (h0 : w.obs.repo.lookup "" = none) :
     driveRound w =
       { w with ctxDone := false, pc := .idle, ret := .dispatchErr World.zeroTask .idNotFound } := by
@@ -202,7 +202,7 @@ theorem round_retry_missing {w : World} {t : Task} {e : Err} (hpc : w.pc = .idle
         (autoAct { w with ctxDone := false, pc := .d_mark World.zeroTask false })
       = { w with ctxDone := false, pc := .idle,
                  ret := .dispatchErr World.zeroTask .idNotFound } := by
-    simp [autoAct, World.step, World.sched, hd, World.finish]
+    simp [autoAct, World.step, World.sched, hd, World.finishDE, World.finish, hg]
   rw [drive_idle (by rw [e4]), e4]
 
 /-! ## `Retry(TaskDone)` -/
@@ -455,7 +455,7 @@ theorem noRetryDisp_end {w : World} (h : NoCtx w) (hi : (w.step (autoAct w)).pc 
       · rw [hpc] at h; cases h
       · exact h
     revert hi
-    simp only [autoAct, hpc, World.step, World.sched, World.finish, hc]
+    simp only [autoAct, hpc, World.step, World.sched, World.finishDE, World.finish, hc]
     simp only [show (Fault.none == Fault.before) = false from rfl,
       show (Fault.none == Fault.after) = false from rfl, Bool.false_eq_true, ↓reduceIte]
     cases hout : (w.obs.step (Obs.OOp.dispatch t0.id) none).2 with
@@ -781,10 +781,11 @@ theorem round_retry_dispatchErr_total {w : World} {t : Task} {e : Err} (hL : Liv
         (driveRound w).log = w.log ∧ (driveRound w).running = w.running ∧
         (driveRound w).obs = w.obs) := by
   have hfix : w.fix.retryMarks = true := by rw [hL.fix]
+  have hg : w.getNextErr = true := hL.dispatchErr_restart hpc hr
   cases hl : w.obs.repo.lookup t.id with
   | none =>
     right
-    rw [round_retry_missing hpc hfix hr hq hl hC.lookup_empty]
+    rw [round_retry_missing hpc hfix hr hq hg hl hC.lookup_empty]
     exact ⟨fun ⟨u, h, _⟩ => (by cases h), _, _, rfl, rfl, rfl, rfl, rfl⟩
   | some u =>
     by_cases hs : u.state = .scheduled
@@ -800,7 +801,7 @@ theorem round_retry_dispatchErr_total {w : World} {t : Task} {e : Err} (hL : Liv
         exact ⟨_, rfl, hs', hl, rfl, rfl⟩
       · right
         obtain ⟨e', hk⟩ := errKindMutate_of_fine (hC.lookup hl) hs hs'
-        rw [round_retry_refused hpc hfix hr hq hl hs hs' hk]
+        rw [round_retry_refused hpc hfix hr hq hg hl hs hs' hk]
         refine ⟨?_, _, _, rfl, errKindMutate_isDefError hk, rfl, rfl, rfl⟩
         rintro ⟨u', h, h'⟩
         cases h
@@ -937,7 +938,7 @@ theorem notRetryable_end {w : World} (h : NoCtx w) (hT : TimerOk w)
       · rw [hpc] at h; cases h
       · exact h
     revert hi
-    simp only [autoAct, hpc, World.step, World.sched, World.finish, hc]
+    simp only [autoAct, hpc, World.step, World.sched, World.finishDE, World.finish, hc]
     simp only [show (Fault.none == Fault.before) = false from rfl,
       show (Fault.none == Fault.after) = false from rfl, Bool.false_eq_true, ↓reduceIte]
     cases hout : (w.obs.step (Obs.OOp.dispatch t0.id) none).2 with
